@@ -18,7 +18,7 @@ use std::sync::{Arc, Mutex};
 pub const DEF: PropDef = PropDef {
     id: "C11",
     level: "exploration",
-    rule: "single-thread cases = (vocabulary variant, window parameters, sync policy, static data yes/no, query spelling, in-order streams, interleaving) on engines built with RSPBuilder in SingleThread mode. MAIN family: two-window variants: both blocks over the same predicate (shared vocabulary), disjoint predicates, blocks sharing a join variable, blocks joining on TWO variables over prefix-related literal values (value pairs that differ while their concatenations coincide, events carrying two triples), a static part joining with a block on two variables, and window blocks over disjoint predicates while the STATIC pattern and data use the predicate of block 1 (static data can only show up in a block, and window items in the static part, by leaking); (width,slide) of each window from {(2,1),(2,2)}; policies Wait and Steal; static background data present or not, with a static pattern in the WHERE clause; streams of <=3 items each over a 2-event alphabet per stream with gaps {1} (thorough {1,2}); EVERY interleaving of the streams. After the last item the pending window results are drained through the public process_single_thread_window_results() and the rows it emits are judged like all others (otherwise the last firing is never observed). CONFIG family (streams of <=2 items each, every interleaving, static yes/no, window pairs (2,1)x(2,1) and (2,2)x(2,1), variants shared / disjoint / two-join-variables / static-shares-vocabulary; thorough: all variants, all four pairs and the full product of the dimensions under all four policies): the same queries under other spellings/configurations: prefix-related stream and window names (:s/:s1/:s12, :w/:w1/:w12) and <http://e/s>-style stream IRIs (always fed under exactly the spelling used in the query), WINDOW blocks written in reverse order with the static pattern first, the policy given as WITH POLICY in the query text (on the last FROM NAMED WINDOW clause) instead of set_sync_policy (all four policies), policies Timeout+Steal and Timeout+Drop through the builder (single-thread: no timer), and prefix-related names + reversed blocks + policy in the text + ISTREAM together. OPS family: ISTREAM and DSTREAM instead of RSTREAM on the disjoint and static-shares-vocabulary variants with static data, policies Wait and Steal, streams of <=3 items with gap 2 (items at t=2,4,6, so that consecutive reported contents differ and DSTREAM really emits), every interleaving. THREE-WINDOW family: three windows over three streams with disjoint predicates whose blocks join in a chain (?a p ?j . / ?j q ?k . / ?k s ?f .), streams of <=2 items each (alphabets of 2,2,1 events), every interleaving of the three streams, window triples (2,1)^3 and (2,2)(2,1)(2,1) (thorough: all eight), policies Wait and Steal, static yes/no. SPARSE family (thorough only): gaps {1,3} (items at t,t+1,t+4: the window reports an EMPTY content after a non-empty one), one event per stream, streams of <=3 items each, disjoint-vocabulary and static-shares-vocabulary variants, static present, all four window pairs. Oracle, per emitted row and per window i (all three stream operators: an ISTREAM/DSTREAM row is a row of the current/previous join): the row must bind every variable of block i; window i's probe must have reported at least once (symptom row_emitted_before_own_window_reported otherwise - no content of that window exists yet; a feed in which one stream is silent must therefore emit nothing); the row restricted to block i's variables must be an answer of block i over SOME content that a probe window with window i's parameters, fed only stream i, has reported so far; the restriction to the static variables must be an answer over the static data alone. A failing block part is tagged explained_by=other_windows_content_visible when it becomes an answer once the contents reported by the OTHER windows are added to window i's content - the shared-store defect -, explained_by=static_data_visible when it becomes an answer once the static data (and not the other windows' items) are added, explained_by=other_windows_content_and_static_data_visible when it needs both, and explained_by=nothing otherwise. Multi-thread family (hook H1 baton scheduler with one worker per window and the coordinator thread, channels named per window plus the results channel, deadline expiry of the coordinator's timed receive enumerated as a scheduling choice): MAIN sub-family: disjoint- and shared-vocabulary (thorough: also two-join-variable) variants x policies {Wait, Steal, Timeout+Steal, Timeout+Drop} x every interleaving of two streams of <=2 items each (quick: <=3 items in total - no engine whose blocks are over disjoint predicates can emit a row there, because both windows must have reported a non-empty content) under EVERY schedule with <=1 (thorough 2) preemptions; a ROWS sub-family in which both streams carry two items at t=1,2 (every interleaving), so that both windows report a non-empty content and engines over disjoint predicates really emit joined rows in MultiThread mode: two-join-variable variant (stream 2 in both event orders: the genuinely joining pair and the pair whose concatenated values collide), static-shares-vocabulary and static-join-on-two-variables WITH static data and the policy given as WITH POLICY in the query text, all four policies, same preemption bound; a THREE-WINDOW sub-family (three workers + coordinator, chain-join variant, one event per stream, two items per stream; quick: the six block orders of the streams under every NON-PREEMPTIVE schedule, thorough: every interleaving non-preemptively and the block orders with <=1 preemption); every emitted row must bind the variables of all blocks, each block part must be an answer over a content its own window reports over the whole feed, the static part an answer over the static data. Non-trivial = single-thread case in which every window reported a non-empty content AND rows were emitted, multi-thread case that emits rows; distinct by case.",
+    rule: "single-thread cases = (vocabulary variant, window parameters, sync policy, static data yes/no, query spelling, in-order streams, interleaving) on engines built with RSPBuilder in SingleThread mode. MAIN family: two-window variants: both blocks over the same predicate (shared vocabulary), disjoint predicates, blocks sharing a join variable, blocks joining on TWO variables over prefix-related literal values (value pairs that differ while their concatenations coincide, events carrying two triples), a static part joining with a block on two variables (its static data also holds triples over the block predicates that answer no static pattern), and window blocks over disjoint predicates while the STATIC pattern and data use the predicate of block 1 (static data can only show up in a block, and window items in the static part, by leaking); (width,slide) of each window from {(2,1),(2,2)}; policies Wait and Steal; static background data present or not, with a static pattern in the WHERE clause (the static-shares-vocabulary variant only with: without static data it is the disjoint variant); streams of <=3 items each over a 2-event alphabet per stream with gaps {1} (thorough {1,2}); EVERY interleaving of the streams. After the last item the pending window results are drained through the public process_single_thread_window_results() and the rows it emits are judged like all others (otherwise the last firing is never observed). CONFIG family (streams of <=2 items each, every interleaving, static yes/no, window pairs (2,1)x(2,1) and (2,2)x(2,1), variants shared / disjoint / two-join-variables / static-shares-vocabulary; thorough: all four pairs and the full product of the dimensions, incl. ISTREAM/DSTREAM, under Wait and Steal, the timeout policies wherever the policy is in the text): the same queries under other spellings/configurations: prefix-related stream and window names (:s/:s1/:s12, :w/:w1/:w12) and <http://e/s>-style stream IRIs (always fed under exactly the spelling used in the query), WINDOW blocks written in reverse order with the static pattern first, the policy given as WITH POLICY in the query text (on the last FROM NAMED WINDOW clause) instead of set_sync_policy (all four policies), policies Timeout+Steal and Timeout+Drop through the builder (single-thread: no timer), and prefix-related names + reversed blocks + policy in the text + ISTREAM together. OPS family: ISTREAM and DSTREAM instead of RSTREAM on the static-shares-vocabulary variant with static data, policies Wait and Steal, streams of <=3 items with gap 2 (items at t=2,4,6, so that consecutive reported contents differ and DSTREAM really emits), every interleaving. THREE-WINDOW family: three windows over three streams with disjoint predicates whose blocks join in a chain (?a p ?j . / ?j q ?k . / ?k s ?f .), streams of <=2 items each (alphabets of 2,2,1 events), every interleaving of the three streams, window triples (2,1)^3 and (2,2)(2,1)(2,1) (thorough: all eight), policies Wait and Steal, static yes/no. SPARSE family (thorough only): gaps {1,3} (items at t,t+1,t+4: the window reports an EMPTY content after a non-empty one), one event per stream, streams of <=3 items each, disjoint-vocabulary and static-shares-vocabulary variants, static present, all four window pairs. Oracle, per emitted row and per window i (all three stream operators: an ISTREAM/DSTREAM row is a row of the current/previous join): the row must bind every variable of block i; window i's probe must have reported at least once (symptom row_emitted_before_own_window_reported otherwise - no content of that window exists yet; a feed in which one stream is silent must therefore emit nothing); the row restricted to block i's variables must be an answer of block i over SOME content that a probe window with window i's parameters, fed only stream i, has reported so far; the restriction to the static variables must be an answer over the static data alone. A failing block part is tagged explained_by=other_windows_content_visible when it becomes an answer once the contents reported by the OTHER windows are added to window i's content - the shared-store defect -, explained_by=static_data_visible when it becomes an answer once the static data (and not the other windows' items) are added, explained_by=other_windows_content_and_static_data_visible when it needs both, and explained_by=nothing otherwise. Multi-thread family (hook H1 baton scheduler with one worker per window and the coordinator thread, channels named per window plus the results channel, deadline expiry of the coordinator's timed receive enumerated as a scheduling choice): MAIN sub-family: disjoint- and shared-vocabulary (thorough: also two-join-variable) variants x policies {Wait, Steal, Timeout+Steal, Timeout+Drop} x every interleaving of two streams of <=2 items each (quick: <=3 items in total - no engine whose blocks are over disjoint predicates can emit a row there, because both windows must have reported a non-empty content) under EVERY schedule with <=1 (thorough 2) preemptions; a ROWS sub-family in which both streams carry two items at t=1,2 (every interleaving), so that both windows report a non-empty content and engines over disjoint predicates really emit joined rows in MultiThread mode: two-join-variable variant (stream 2 in both event orders: the genuinely joining pair and the pair whose concatenated values collide), and static-join-on-two-variables WITH static data and the policy given as WITH POLICY in the query text, all four policies, <=1 preemption in both tiers (thorough adds the window pair (2,2)x(2,1)); a THREE-WINDOW sub-family (three workers + coordinator, chain-join variant, one event per stream, two items per stream; quick: the six block orders of the streams under every NON-PREEMPTIVE schedule, thorough: every interleaving non-preemptively and the block orders with <=1 preemption); every emitted row must bind the variables of all blocks, each block part must be an answer over a content its own window reports over the whole feed, the static part an answer over the static data. Non-trivial = single-thread case in which every window reported a non-empty content AND rows were emitted, multi-thread case that emits rows; distinct by case.",
     assumptions: &[
         "stop()'s flush is excluded (engines are dropped); multi-thread scheduling points: channel sends/receives, thread start/end, after each window processor, the coordinator's timed receive (deadline expiry is a choice), no points inside mutexes",
         "the probe windows are real CSPARQLWindows (C09's subject)",
@@ -118,7 +118,10 @@ pub fn variants() -> Vec<Variant> {
             blocks: vec![vec![tp(v("a"), c("p"), v("j")), tp(v("a"), c("q"), v("k"))], vec![tp(v("c"), c("r"), v("d"))]],
             alphas: vec![vec![e2("x1", "p", "1", "q", "23"), e2("x2", "p", "12", "q", "3")], vec![e1("u1", "r", "v1"), e1("u2", "r", "v1")]],
             static_pattern: vec![tp(v("m"), c("t"), v("j")), tp(v("m"), c("u"), v("k"))],
-            static_data: vec![(iri("k1"), iri("t"), "12".to_string()), (iri("k1"), iri("u"), "3".to_string())],
+            // (k1 t "12")(k1 u "3") join block 1's event x2; the other three triples answer no static
+            // pattern: they are over the predicates of the window blocks, so they can only appear in a
+            // row if static data leaks into the window store
+            static_data: vec![(iri("k1"), iri("t"), "12".to_string()), (iri("k1"), iri("u"), "3".to_string()), t3("k3", "r", "k4"), (iri("k5"), iri("p"), "9".to_string()), (iri("k5"), iri("q"), "8".to_string())],
         },
         // the window blocks do not share vocabulary with each other (so the shared-store defect is
         // silent), but the static pattern/data use block 1's predicate (and the static data also
@@ -792,11 +795,13 @@ fn mt_step(ctx: &Ctx, out: &mut ShardOut, idx: &mut u64, mc: MtCase, bound: usiz
     true
 }
 
-fn run_multi_thread_family(ctx: &Ctx, out: &mut ShardOut, idx: &mut u64) -> bool {
+/// the two small multi-thread sub-families (ROWS, THREE-WINDOW)
+fn mt_small(ctx: &Ctx, out: &mut ShardOut, idx: &mut u64) -> bool {
     if !sched::available() {
         return true;
     }
-    let bound = if ctx.thorough() { 2 } else { 1 };
+    // <= 1 preemption in both tiers (a 4-item case has ~600 such schedules, tens of thousands with 2)
+    let bound = 1;
     // ROWS sub-family: two items on each stream, so both windows report a non-empty content (the
     // first item of each stream). Stream 1 carries event 1 first (it joins the static data of
     // static_join_on_two_variables); stream 2 carries its events in the given order(s): for the
@@ -805,7 +810,7 @@ fn run_multi_thread_family(ctx: &Ctx, out: &mut ShardOut, idx: &mut u64) -> bool
     let s1: Vec<(usize, usize)> = vec![(1, 1), (0, 2)];
     let s2a: Vec<(usize, usize)> = vec![(0, 1), (1, 2)];
     let s2b: Vec<(usize, usize)> = vec![(1, 1), (0, 2)];
-    for (variant, with_static, both_orders) in [(V_TWO_JOIN, false, true), (V_STATIC_SHARES, true, false), (V_STATIC_TWO, true, false)] {
+    for (variant, with_static, both_orders) in [(V_TWO_JOIN, false, true), (V_STATIC_TWO, true, false)] {
         for wins in [vec![(2usize, 1usize), (2, 1)], vec![(2, 2), (2, 1)]] {
             for policy in POLICIES {
                 for s2 in [&s2a, &s2b] {
@@ -855,6 +860,15 @@ fn run_multi_thread_family(ctx: &Ctx, out: &mut ShardOut, idx: &mut u64) -> bool
             }
         }
     }
+    true
+}
+
+/// the MAIN multi-thread sub-family
+fn mt_main(ctx: &Ctx, out: &mut ShardOut, idx: &mut u64) -> bool {
+    if !sched::available() {
+        return true;
+    }
+    let bound = if ctx.thorough() { 2 } else { 1 };
     let seqs = stream_seqs(2, &[1], 2);
     for variant in [V_DISJOINT, V_SHARED, V_TWO_JOIN] {
         // disjoint vocabulary first (no known-finding noise), then shared vocabulary
@@ -916,8 +930,9 @@ fn config_list(thorough: bool) -> Vec<(Cfg, Vec<Policy>)> {
                 for policy_in_text in [false, true] {
                     for op in 0..3 {
                         let cfg = Cfg { names, layout, policy_in_text, op };
-                        // the base configuration under Wait/Steal is the MAIN family
-                        l.push((cfg, if cfg == BASE { ts.clone() } else { POLICIES.to_vec() }));
+                        // the base configuration under Wait/Steal is the MAIN family; the timeout
+                        // policies (no timer in single-thread mode) only where the policy source matters
+                        l.push((cfg, if cfg == BASE { ts.clone() } else if policy_in_text || cfg == (Cfg { op, ..BASE }) { POLICIES.to_vec() } else { ws.clone() }));
                     }
                 }
             }
@@ -943,6 +958,9 @@ fn st_main(ctx: &Ctx, out: &mut ShardOut, idx: &mut u64) -> bool {
             for w2 in WIN {
                 for policy in [Policy::Wait, Policy::Steal] {
                     for with_static in [false, true] {
+                        if variant == V_STATIC_SHARES && !with_static {
+                            continue; // identical to disjoint_vocabulary without static data
+                        }
                         for a in &seqs {
                             for b in &seqs {
                                 for feed in interleavings(&[a, b]) {
@@ -972,7 +990,7 @@ fn win_pairs(thorough: bool) -> Vec<((usize, usize), (usize, usize))> {
 /// CONFIG: other spellings / configurations of the same queries, streams of <= 2 items
 fn st_config(ctx: &Ctx, out: &mut ShardOut, idx: &mut u64) -> bool {
     let seqs2 = stream_seqs(2, &[1], 2);
-    let variants: Vec<usize> = if ctx.thorough() { (0..N2).collect() } else { vec![V_SHARED, V_DISJOINT, V_TWO_JOIN, V_STATIC_SHARES] };
+    let variants: Vec<usize> = vec![V_SHARED, V_DISJOINT, V_TWO_JOIN, V_STATIC_SHARES];
     for (cfg, policies) in config_list(ctx.thorough()) {
         for &variant in &variants {
             for (w1, w2) in win_pairs(ctx.thorough()) {
@@ -1002,7 +1020,7 @@ fn st_config(ctx: &Ctx, out: &mut ShardOut, idx: &mut u64) -> bool {
 fn st_ops(ctx: &Ctx, out: &mut ShardOut, idx: &mut u64) -> bool {
     let seqs = stream_seqs(3, &[2], 2);
     for op in [1usize, 2] {
-        for variant in [V_DISJOINT, V_STATIC_SHARES] {
+        for variant in [V_STATIC_SHARES] {
             for (w1, w2) in win_pairs(ctx.thorough()) {
                 for policy in [Policy::Wait, Policy::Steal] {
                     for a in &seqs {
@@ -1089,8 +1107,9 @@ fn run(ctx: &Ctx) -> ShardOut {
     if ctx.thorough() {
         fams.push(("st_sparse", st_sparse));
     }
+    fams.push(("mt_rows_and_three_windows", mt_small));
     fams.push(("st_main", st_main));
-    fams.push(("mt", run_multi_thread_family));
+    fams.push(("mt_main", mt_main));
     for (name, f) in fams {
         let t0 = std::time::Instant::now();
         let ok = f(ctx, &mut out, &mut idx);
